@@ -152,6 +152,75 @@ decreasing_by
 /-- `bit_mask::set_bits(write_data, data, offset_write, offset_read, len)` -/
 def setBits (d src ow or len : Nat) : Nat × Nat := setBitsLoop src ow or len d 0 0
 
+
+/-! ### in-place operations (`bit_util::apply_bitwise_binary_op` / `apply_bitwise_unary_op`) -/
+
+/-- `U64UnalignedSlice::zip_modify`: word `k, k+1, …` (at byte `base + 8k`) := `op cur w`. -/
+def zipModify (op : Nat → Nat → Nat) (base : Nat) : Nat → List Nat → Nat → Nat
+  | _, [], d => d
+  | k, w :: ws, d =>
+    zipModify op base (k + 1) ws (writeU64 d (base + 8 * k) (u64 (op (readU64 d (base + 8 * k)) w)))
+
+/-- `get_remainder_bits(remainder, remainder_len)` where the slice starts at byte `byteOff` -/
+def getRemainderBits (d byteOff remLen : Nat) : Nat :=
+  readBytes d byteOff (ceilDiv remLen 8) &&& (u64 (1 <<< remLen) - 1)
+
+/-- `set_remainder_bits(slice, rem, remainder_len)`: keeps the bits of the boundary byte that lie
+outside the remainder, writes `ceil(remainder_len/8)` bytes. -/
+def setRemainderBits (d byteOff rem remLen : Nat) : Nat :=
+  let nbytes := ceilDiv remLen 8
+  let current := u64 (readByte d (byteOff + (nbytes - 1)) <<< ((nbytes - 1) * 8))
+  let inside := u64 (1 <<< remLen) - 1
+  let outside := allOnes64 ^^^ inside
+  let combined := (current &&& outside) ||| (rem &&& inside)
+  setRange d (8 * byteOff) (8 * nbytes) combined
+
+/-- `byte_aligned_bitwise_bin_op_helper` (`dofs % 8 = 0`) -/
+def alignedBinOp (op : Nat → Nat → Nat) (d dofs r ro len : Nat) : Nat :=
+  let nChunks := len / 64
+  let remLen := len % 64
+  let rv := r >>> (8 * (ro / 8))
+  let rbo := ro % 8
+  let d1 := zipModify op (dofs / 8) 0 ((List.range nChunks).map (chunkAt rv rbo)) d
+  if remLen > 0 then
+    let off := dofs / 8 + 8 * nChunks
+    let left := getRemainderBits d1 off remLen
+    let rem := u64 (op left (remainderBits rv rbo nChunks remLen))
+    setRemainderBits d1 off rem remLen
+  else d1
+
+/-- `read_up_to_byte_from_offset(slice, n, bit_offset)` (`n < 8`): the loop ORs in
+`byte << (i*8 - bit_offset)` on a `u8`, i.e. truncated to 8 bits. -/
+def readUpToByte (v n bo : Nat) : Nat :=
+  let nb := ceilDiv (n + bo) 8
+  let bits := readByte v 0 >>> bo
+  let bits := if nb > 1 then bits ||| ((readByte v 1 <<< (8 - bo)) % 256) else bits
+  bits &&& ((1 <<< n) % 256 - 1)
+
+/-- `align_to_byte(buffer, op, offset_in_bits, remaining_len_in_bits)` (`offset % 8 ≠ 0`) -/
+def alignToByte (opu : Nat → Nat) (d off rem : Nat) : Nat :=
+  let byteOff := off / 8
+  let bo := off % 8
+  let first := readByte d byteOff
+  let rel := first >>> bo
+  let res := opu rel % 256
+  let res := (res <<< bo) % 256
+  let bits := min (8 - bo) rem
+  let mask := ((((1 <<< bits) % 256) - 1) <<< bo) % 256
+  let new := (first &&& (255 ^^^ mask)) ||| (res &&& mask)
+  setRange d (8 * byteOff) 8 new
+
+/-- `apply_bitwise_binary_op(left, left_offset, right, right_offset, len, op)` -/
+def applyBinaryOp (op : Nat → Nat → Nat) (d dofs r ro len : Nat) : Nat :=
+  if len = 0 then d
+  else if dofs % 8 = 0 then alignedBinOp op d dofs r ro len
+  else
+    let n := min (8 - dofs % 8) len
+    let rf := readUpToByte (r >>> (8 * (ro / 8))) n (ro % 8)
+    let d1 := alignToByte (fun l => op l rf) d dofs n
+    let len' := len - n
+    if len' = 0 then d1 else alignedBinOp op d1 (dofs + n) r (ro + n) len'
+
 /-! ### word-at-a-time construction (`BooleanBuffer::from_bitwise_binary_op`, ops.rs) -/
 
 /-- pack a list of u64 words into a buffer value (word `k` at bits `64k..`) -/
